@@ -350,7 +350,10 @@ def main():
         # 4. harness
         exe, err = build_harness('release')
         exe_dbg = None
-        if exe and thorough:
+        # the overflow-checked build runs in the thorough tier, and whenever a tie to the source is
+        # already broken (the search for a failing input then also covers arithmetic that only
+        # panics with overflow checks on)
+        if exe and (thorough or broken):
             exe_dbg, err2 = build_harness('debug')
             if err2:
                 err = err2
